@@ -1,6 +1,8 @@
 import TmVerif.Model.LRProto
 import TmVerif.Model.LRK
 import TmVerif.Model.LRAccept
+import TmVerif.Model.LRCompleteK
+import TmVerif.Model.LRSoundK
 namespace TmVerif.DriverC07
 open TmVerif.Proto TmVerif.LR TmVerif.LRRef TmVerif.LRK TmVerif.CFG
 
@@ -11,10 +13,24 @@ def verdictK (g : Grammar) (t : Tables) (k : Nat) : String :=
     let la := lakFix g t k phi
     match checkTries g t k la with
     | .error e => s!"mismatch {e}"
-    | .ok _ => "ok"
+    | .ok _ =>
+      -- completeness certificate (hypothesis of C07_lr_complete_k)
+      match LRCompleteK.mkKCert g t k with
+      | .error e => s!"mismatch completeness certificate: cannot be built: {e}"
+      | .ok cc =>
+        if !LRCompleteK.complKOk g t k cc then
+          s!"mismatch completeness certificate: {LRCompleteK.complKFailure g t k cc}"
+        else
+          -- soundness certificate against every decision of the lookahead automata
+          -- (hypothesis of C07_lr_sound_k)
+          let cert := LRSoundK.computePastK g t
+          if LRSoundK.certKOk g t cert then "ok"
+          else s!"mismatch soundness certificate: {LRSoundK.firstFailureK g t cert}"
 
 /-- `lalrk <grammar 6> <k> <tables>` : every lookahead automaton in the tables answers, for every
-LALR(k) lookahead string of a conflicting rule, that rule.
+LALR(k) lookahead string of a conflicting rule, that rule; the LR(k)-item completeness certificate
+(`complKOk`) and the deep-lookahead soundness certificate (`certKOk`), both built from the real
+tables, hold (`ok` = every hypothesis of the C07 theorems about the tables).
 `accept <tables> <input> <spec>…` : sentences check (search). -/
 def handle (args : List String) : Option String :=
   match args with
